@@ -84,7 +84,7 @@ def walk(rng, n_ops):
         elif r < 0.80:
             call({"op": "nav_cmd", "cmd": rng.choice(NAV)}, "call")
         elif r < 0.84:
-            call({"op": "set_nav_node", "id": rng.choice(["${ID:1}", "${ID:2}", "${ID:0}", "no-such-id", "${OLDID:1}"]), "offset": 0}, "call")
+            call({"op": "set_nav_node", "id": rng.choice(["${ID:1}", "${ID:2}", "${ID:3}", "${ID:0}", "no-such-id", "${OLDID:1}"]), "offset": rng.choice([0, 0, 1, 2])}, "call")
         elif r < 0.90:
             call({"op": "node_from_braille", "pos": rng.choice([0, 1, 2, 5, 40])}, "call")
         else:
